@@ -528,6 +528,11 @@ pub fn sweep_table(st: &Stats, prop: &str, spec: &TableSpec, ft: Ft, want: &Want
             if !ok || !t.pair_allowed(a, b) {
                 continue;
             }
+            // self-crossing operands are only in the domain of C01 (even-odd clause); every other
+            // property quantifies over valid operands
+            if !want.c01 && (a.kind == Kind::Bowtie || b.kind == Kind::Bowtie) {
+                continue;
+            }
             loc.states += 1;
             if edge_sets_interact(&a.edges, &b.edges) {
                 loc.nontrivial += 1;
@@ -536,11 +541,10 @@ pub fn sweep_table(st: &Stats, prop: &str, spec: &TableSpec, ft: Ft, want: &Want
             loc.add("witness_sides", out.sides as u64);
             loc.add(if spec.kind == "P" { "faces_skipped_general_position_tables" } else { "faces_skipped_lattice_triangles" }, out.skipped as u64);
             for c in out.clauses {
-                loc.violation(
-                    &c,
-                    finding_key(prop, &format!("{}:{}:{}:{}", spec.name, ia, ib, ft.name()), &c),
-                    table_case_json(prop, spec, ia, ib, ft),
-                );
+                let mut case = table_case_json(prop, spec, ia, ib, ft);
+                case["A"] = hex(&a.mp);
+                case["B"] = hex(&b.mp);
+                loc.violation(&c, finding_key(prop, &format!("{}:{}:{}:{}", spec.name, ia, ib, ft.name()), &c), case);
             }
         }
         cnt.fetch_add(loc.states, std::sync::atomic::Ordering::Relaxed);
